@@ -68,7 +68,18 @@ def mutate(tree, rng):
     """an in-place edit of a previously returned tree: replace / remove / append / clear children at any depth, rename a node"""
     nodes = subtrees(tree)
     node, depth = rng.choice(nodes)
-    op = rng.choice(["replace", "replace", "remove", "append", "append", "clear", "rename", "swap", "nested-append"])
+    op = rng.choice(["replace", "replace", "remove", "append", "append", "clear", "rename", "swap", "nested-append", "token-edit"])
+    if op == "token-edit":
+        # the leaves are objects with writable attributes, too: .value / .type are what ahbicht reads
+        tokens = [(nd, i, d) for nd, d in nodes for i, c in enumerate(nd.children) if isinstance(c, Token)]
+        if tokens:
+            nd, i, d = rng.choice(tokens)
+            if rng.random() < 0.7:
+                nd.children[i].value = rng.choice(["667", "Kann", "X", "99P"])
+            else:
+                nd.children[i].type = "JUNK"
+            return "token-edit", d + 1
+        op = "append"
     junk = Tree("junk", [Token("CONDITION_KEY", "666")])
     if op == "replace" and node.children:
         node.children[rng.randrange(len(node.children))] = junk if rng.random() < 0.5 else Token("CONDITION_KEY", "667")
